@@ -934,6 +934,7 @@ private:
 
         #undef VALIDATE_CANARY
       });
+    IORA_VERIF_YIELD("tp.spawn.created"); // the worker runs, its entry in _threads does not exist yet
 
     std::lock_guard<std::mutex> lock(_mutex);
     auto threadId = t.get_id();
